@@ -316,31 +316,49 @@ def theorem_names(prop_file):
 
 
 def print_assumptions(prop_id, prop_file):
-    """Returns (ok, {theorem: [axioms]}, log)."""
+    """Returns (ok, {theorem: [axioms]}, log).  The theorems are spread over a few coqc processes (each Print Assumptions
+    walks the whole dependency graph of its theorem, which takes seconds per theorem on the large developments)."""
     names = theorem_names(prop_file)
     mod = 'V.' + prop_file[:-2].replace('/', '.')
     d = os.path.join(BUILD, 'pa')
     os.makedirs(d, exist_ok=True)
-    f = os.path.join(d, 'PA_%s.v' % prop_id)
-    body = 'Require Import %s.\n' % mod + ''.join('Print Assumptions %s.\n' % n for n in names)
-    open(f, 'w').write(body)
-    rc, out = sh(['coqc', '-noglob', '-Q', COQ, 'V', f], cwd=d, timeout=600)
-    if rc != 0:
-        return False, {}, out
-    blocks = re.split(r'(?m)^(?=Closed under the global context|Axioms:)', out)
-    blocks = [b for b in blocks if b.strip()]
+    tag = 'PA_%s_%s' % (prop_id, re.sub(r'\W', '_', prop_file[:-2]))
+    nproc = max(1, min(8, len(names) // 3))
+    groups = [names[i::nproc] for i in range(nproc)]
+
+    def run(k):
+        f = os.path.join(d, '%s_%d.v' % (tag, k))
+        body = 'Require Import %s.\n' % mod + ''.join('Print Assumptions %s.\n' % n for n in groups[k])
+        open(f, 'w').write(body)
+        rc, out = sh(['coqc', '-noglob', '-Q', COQ, 'V', f], cwd=d, timeout=900)
+        if rc != 0:
+            return False, {}, out
+        blocks = re.split(r'(?m)^(?=Closed under the global context|Axioms:)', out)
+        blocks = [b for b in blocks if b.strip()]
+        res = {}
+        ok = len(blocks) == len(groups[k])
+        for n, b in zip(groups[k], blocks):
+            if b.startswith('Closed'):
+                res[n] = []
+            else:
+                ax = re.findall(r"(?m)^([A-Za-z_][\w\.\']*)\s*:", b)
+                res[n] = ax
+                for a in ax:
+                    if a not in ALLOWED_AXIOMS and a.split('.')[-1] not in ALLOWED_AXIOMS:
+                        ok = False
+        return ok, res, out
+
+    with cf.ThreadPoolExecutor(max_workers=nproc) as ex:
+        parts = list(ex.map(run, range(nproc)))
+    ok = all(p[0] for p in parts)
     res = {}
-    ok = len(blocks) == len(names)
-    for n, b in zip(names, blocks):
-        if b.startswith('Closed'):
-            res[n] = []
-        else:
-            ax = re.findall(r'(?m)^([A-Za-z_][\w\.\']*)\s*:', b)
-            res[n] = ax
-            for a in ax:
-                if a not in ALLOWED_AXIOMS and a.split('.')[-1] not in ALLOWED_AXIOMS:
-                    ok = False
-    return ok, res, out
+    for n in names:                      # keep the order of the property file
+        for p in parts:
+            if n in p[1]:
+                res[n] = p[1][n]
+    if ok and len(res) != len(names):
+        ok = False
+    return ok, res, '\n'.join(p[2] for p in parts)
 
 
 def coq_eval(tag, imports, exprs, timeout=1200, shard=None, preamble='', tolerate=False):
